@@ -180,8 +180,23 @@ def run(ck, facts):
                 found.setdefault(key, []).append(C.loc(f, n.get("ln")))
     if os.environ.get("VERIF_DUMP_UNWRAPS"):
         print("UNWRAPS", json.dumps({k: len(v) for k, v in found.items()}, indent=1, sort_keys=True))
+    def loose_u(k_):
+        fn_, rest = k_.split("/", 1)
+        return ("::".join(fn_.split("::")[:2]), rest)
+    by_loose_u = {}
+    for k_ in usp:
+        by_loose_u.setdefault(loose_u(k_), []).append(k_)
     for k, locs in sorted(found.items()):
         t = usp.get(k)
+        if not t:
+            # the same unwrap (same backend, same method, same provenance of the Option) may have moved into a helper or another module
+            cands = [c for c in by_loose_u.get(loose_u(k), []) if c not in found]
+            if cands and usp[cands[0]]["class"] != "finding":
+                ck.expect(len(locs) <= usp[cands[0]].get("count", 1), "R3", k, "%s (triaged as %s)" % (usp[cands[0]]["class"], cands[0]), "%d sites, %d triaged" % (len(locs), usp[cands[0]].get("count", 1)), locs[0])
+                continue
+            if cands:
+                ck.bad("R3", cands[0], usp[cands[0]]["why"], locs[0])
+                continue
         if not t:
             ck.bad("R3", k, "untriaged unwrap/expect on an Option derived from HIR data or a parameter: which accepted bridge makes it None?", locs[0])
         elif t["class"] == "finding":
